@@ -40,7 +40,13 @@ enum ClockMode {
     Ticking,
 }
 
-const EXTREME_CLOCKS: [(i64, u32, i32, &str); 10] = [
+const EXTREME_CLOCKS: [(i64, u32, i32, &str); 15] = [
+    // chrono's own limits (offset 0, so that chrono's local-time arithmetic itself stays in range)
+    (8_210_266_876_799, 999_999_999, 0, "chrono DateTime::MAX_UTC (+262142-12-31 23:59:59.999999999)"),
+    (8_210_266_876_799, 1_999_999_999, 0, "chrono maximum instant in leap-second representation"),
+    (-8_334_601_228_800, 0, 0, "chrono DateTime::MIN_UTC (-262143-01-01 00:00:00)"),
+    (253_402_300_799, 1_999_999_999, 0, "9999-12-31 23:59:59 in leap-second representation"),
+    (-62_135_596_801, 1_000_000_000, 0, "0000-12-31 23:59:59 in leap-second representation"),
     (-62_198_755_200, 0, 0, "year -1"),
     (-62_167_219_200, 0, 0, "year 0"),
     (-62_135_596_800, 0, 0, "0001-01-01 00:00:00"),
